@@ -8,9 +8,10 @@
    peval f x :=  value at x of the coefficient list f (low degree first)
    E RKd (vR p) f  :=  the algebraic moment functional of Gauss/Moment1D.v at the reals, v = 1/(2p)
 
-   WHAT REMAINS TRUSTED of (B1) after this file: the one equation between real numbers
+   What (B1) still needs after this file: the one equation between real numbers
         Gint (fun x => exp (- x^2)) = sqrt PI
-   (hypothesis of BRIDGE_B1; existence and positivity of that integral are proved). *)
+   (hypothesis of BRIDGE_B1; existence and positivity of that integral are proved here).  That equation
+   is proved in Gauss/GaussInt.v; Props/BRIDGE_value.v states the closed form BRIDGE_B1_closed. *)
 From Coq Require Import List Reals.
 From Coquelicot Require Import Coquelicot.
 From GB Require Import Base.Field Gauss.Moment1D Gauss.Bridge Gauss.DerivBridge Gauss.BridgeR.
